@@ -481,7 +481,7 @@ def check(rep: Report, tier: str, seed: int) -> None:
     laws(rep, rng, 150 if quick else 4000)
     probe_index_dtype(rep)
     restart_search(rep, rng, 120 if quick else 3000)
-    if rep.broken and not rep.failing:
+    if rep.broken and not rep.unknown_failing():
         search(rep, seed, 60 if quick else 1500)
 
 
@@ -624,7 +624,7 @@ def search(rep: Report, seed: int, n_cases: int) -> None:
         if msg:
             rep.fail(msg, dict(kind="impl", M=M, init=init, rcm=tapes.rcm))
             return
-    if not rep.failing:
+    if not rep.unknown_failing():
         restart_search(rep, rng, 10 * n_cases)
     rep.extra["search_cases"] = n_cases
 
